@@ -7,10 +7,10 @@
 (* evaluates the C09 route monitor at every pop and the outcome properties at `return`.           *)
 (* Deviations are tagged with the property they belong to, recorded, the implementation's state   *)
 (* adopted, and validation continues.  Tags starting with DIV are divergences (never a verdict).  *)
-EXTENDS SeqBnB, DDContract, Gap, Json, IOUtils
+EXTENDS SeqBnB, DDContract, DominanceStore, Gap, Json, IOUtils
 Rec == ndJsonDeserialize(IOEnv.TRACE)
-VARIABLES l, I, HT, cfg, S, cur, compiledCur, inp, res, baseRet, prevRet, primalMax, held, skipOK, devs
-vars == <<l, I, HT, cfg, S, cur, compiledCur, inp, res, baseRet, prevRet, primalMax, held, skipOK, devs>>
+VARIABLES l, I, HT, cfg, S, cur, compiledCur, inp, res, baseRet, prevRet, primalMax, held, skipOK, store, devs
+vars == <<l, I, HT, cfg, S, cur, compiledCur, inp, res, baseRet, prevRet, primalMax, held, skipOK, store, devs>>
 None == <<>>
 Add(d, tags) == IF Cardinality(d) < 60 THEN d \cup {<<t, l, cfg.run, "-">> : t \in tags} ELSE d
 SP(n) == [st |-> n.st, depth |-> n.depth, value |-> n.value, ub |-> n.ub, path |-> n.path]
@@ -21,7 +21,7 @@ Cfg0 == [run |-> 0, cache |-> FALSE, dom |-> FALSE, fringe |-> "simple", level |
          dd |-> "lel", width |-> 1, cut_at |-> 0, nprimal |-> 0, inst_id |-> -1]
 
 Init == /\ l = 1 /\ I = None /\ HT = None /\ cfg = Cfg0 /\ S = EmptyS /\ cur = None /\ compiledCur = FALSE
-        /\ inp = None /\ res = None /\ baseRet = None /\ prevRet = None /\ primalMax = NegInf /\ held = None /\ skipOK = FALSE /\ devs = {}
+        /\ inp = None /\ res = None /\ baseRet = None /\ prevRet = None /\ primalMax = NegInf /\ held = None /\ skipOK = FALSE /\ store = <<>> /\ devs = {}
 Ev(e) == l <= Len(Rec) /\ Rec[l].ev = e /\ l' = l + 1
 
 TReset ==
@@ -31,7 +31,7 @@ TReset ==
      /\ HT' = (IF e.inst = I THEN HT ELSE HTable(e.inst))
      /\ cfg' = [run |-> e.run, cache |-> e.cache, dom |-> e.dom, fringe |-> e.fringe, level |-> e.level, role |-> e.role, series |-> e.series,
                 last |-> e.last, dd |-> e.dd, width |-> e.width, cut_at |-> e.cut_at, nprimal |-> e.nprimal, inst_id |-> e.inst_id]
-     /\ S' = EmptyS /\ cur' = None /\ compiledCur' = FALSE /\ inp' = None /\ res' = None /\ primalMax' = NegInf /\ held' = None /\ skipOK' = FALSE
+     /\ S' = EmptyS /\ cur' = None /\ compiledCur' = FALSE /\ inp' = None /\ res' = None /\ primalMax' = NegInf /\ held' = None /\ skipOK' = FALSE /\ store' = <<>>
      /\ baseRet' = (IF e.role = "base" THEN None ELSE baseRet)
      /\ prevRet' = (IF e.role = "cut" /\ e.series = cfg.series THEN prevRet ELSE None)
      /\ devs' = (IF e.inst = I \/ WellFormed(I', HT') THEN devs ELSE Add(devs, {"HARNESS ill-formed-instance"}))
@@ -46,11 +46,11 @@ TPrimal ==
      /\ devs' = Add(devs, Tag(e.lb_after # S2.bestLb \/ e.val_after # S2.bestLb, "C14 set-primal-value")
                           \* replaced only when strictly greater: on an equal (or smaller) value the earlier solution stays
                           \cup Tag(e.sol_after.decs # held', "C14 set-primal-solution"))
-  /\ UNCHANGED <<I, HT, cfg, cur, compiledCur, inp, res, baseRet, prevRet, skipOK>>
+  /\ UNCHANGED <<I, HT, cfg, cur, compiledCur, inp, res, baseRet, prevRet, skipOK, store>>
 
 \* ------------------------------------------------------------------ fringe (C11 in situ) and the solver's use of it
 LenTags(its) == Tag(FLen(its) # Rec[l].len, "C11 len")
-TCInit == Ev("cinit") /\ UNCHANGED <<I, HT, cfg, S, cur, compiledCur, inp, res, baseRet, prevRet, primalMax, held, skipOK, devs>>
+TCInit == Ev("cinit") /\ UNCHANGED <<I, HT, cfg, S, cur, compiledCur, inp, res, baseRet, prevRet, primalMax, held, skipOK, store, devs>>
 TPush ==
   /\ Ev("push")
   /\ LET sp == SP(Rec[l].node)
@@ -58,7 +58,7 @@ TPush ==
          grow == FLen(f2) - FLen(S.fringe) IN
      /\ S' = [S EXCEPT !.fringe = f2, !.open = IF sp.depth \in DOMAIN S.open THEN [S.open EXCEPT ![sp.depth] = @ + grow] ELSE [d \in 0..I.n |-> IF d = sp.depth THEN 1 ELSE 0]]
      /\ devs' = Add(devs, LenTags(f2))
-  /\ UNCHANGED <<I, HT, cfg, cur, compiledCur, inp, res, baseRet, prevRet, primalMax, held, skipOK>>
+  /\ UNCHANGED <<I, HT, cfg, cur, compiledCur, inp, res, baseRet, prevRet, primalMax, held, skipOK, store>>
 \* C09: some optimal solution is still reachable through an open node that neither its bound nor the cache discards
 Live(n, lb, table) == SpOpt(I, HT, n) = Opt(I, HT) /\ n.ub > lb /\ (~cfg.cache \/ MustExplore(table, n))
 RouteTags(S1, popped) ==
@@ -81,9 +81,9 @@ TPop ==
                           \cup Tag(cands = {}, IF \E y \in BagToSet(S1.fringe) : Matches(sp, y) THEN "C11 pop-not-max"
                                                ELSE IF same # {} THEN "C11 pop-altered-item" ELSE "C11 pop-invented")
                           \cup RouteTags(S2, sp))
-  /\ UNCHANGED <<I, HT, cfg, inp, res, baseRet, prevRet, primalMax, held>>
-TPopNone == Ev("pop_none") /\ devs' = Add(devs, Tag(S.fringe # EmptyBag, "C11 lost-items")) /\ UNCHANGED <<I, HT, cfg, S, cur, compiledCur, inp, res, baseRet, prevRet, primalMax, held, skipOK>>
-TFClear == Ev("fclear") /\ S' = [S EXCEPT !.fringe = EmptyBag] /\ UNCHANGED <<I, HT, cfg, cur, compiledCur, inp, res, baseRet, prevRet, primalMax, held, skipOK, devs>>
+  /\ UNCHANGED <<I, HT, cfg, inp, res, baseRet, prevRet, primalMax, held, store>>
+TPopNone == Ev("pop_none") /\ devs' = Add(devs, Tag(S.fringe # EmptyBag, "C11 lost-items")) /\ UNCHANGED <<I, HT, cfg, S, cur, compiledCur, inp, res, baseRet, prevRet, primalMax, held, skipOK, store>>
+TFClear == Ev("fclear") /\ S' = [S EXCEPT !.fringe = EmptyBag] /\ UNCHANGED <<I, HT, cfg, cur, compiledCur, inp, res, baseRet, prevRet, primalMax, held, skipOK, store, devs>>
 
 \* ------------------------------------------------------------------ cache (C18 in situ); an EmptyCache run ignores updates
 TCGet ==
@@ -93,16 +93,25 @@ TCGet ==
      /\ S' = (IF got = exp \/ ~cfg.cache THEN S
               ELSE IF got = NoTh THEN [S EXCEPT !.table = [k \in (DOMAIN S.table) \ {<<e.depth, e.st>>} |-> S.table[k]]]
               ELSE [S EXCEPT !.table = [k \in (DOMAIN S.table) \cup {<<e.depth, e.st>>} |-> IF k = <<e.depth, e.st>> THEN got ELSE S.table[k]]])
-  /\ UNCHANGED <<I, HT, cfg, cur, compiledCur, inp, res, baseRet, prevRet, primalMax, held, skipOK>>
+  /\ UNCHANGED <<I, HT, cfg, cur, compiledCur, inp, res, baseRet, prevRet, primalMax, held, skipOK, store>>
 TCUpd == /\ Ev("cupd")
          /\ LET e == Rec[l] IN S' = (IF cfg.cache THEN [S EXCEPT !.table = CUpd(S.table, e.depth, e.st, <<e.value, e.explored>>)] ELSE S)
-         /\ UNCHANGED <<I, HT, cfg, cur, compiledCur, inp, res, baseRet, prevRet, primalMax, held, skipOK, devs>>
+         /\ UNCHANGED <<I, HT, cfg, cur, compiledCur, inp, res, baseRet, prevRet, primalMax, held, skipOK, store, devs>>
 TCClearLayer == /\ Ev("cclear_layer") /\ S' = [S EXCEPT !.table = CClearLayer(S.table, Rec[l].depth)]
-                /\ UNCHANGED <<I, HT, cfg, cur, compiledCur, inp, res, baseRet, prevRet, primalMax, held, skipOK, devs>>
+                /\ UNCHANGED <<I, HT, cfg, cur, compiledCur, inp, res, baseRet, prevRet, primalMax, held, skipOK, store, devs>>
 TCClear == /\ Ev("cclear") /\ S' = [S EXCEPT !.table = CEmpty]
-           /\ UNCHANGED <<I, HT, cfg, cur, compiledCur, inp, res, baseRet, prevRet, primalMax, held, skipOK, devs>>
-TDom == /\ (Ev("dquery") \/ Ev("dclear_layer") \/ Ev("poll"))
-        /\ UNCHANGED <<I, HT, cfg, S, cur, compiledCur, inp, res, baseRet, prevRet, primalMax, held, skipOK, devs>>
+           /\ UNCHANGED <<I, HT, cfg, cur, compiledCur, inp, res, baseRet, prevRet, primalMax, held, skipOK, store, devs>>
+\* dominance store (C10 in situ): every query of the run against DominanceStore.tla with the model's rule
+TDQuery ==
+  /\ Ev("dquery")
+  /\ LET e == Rec[l]  c == DomCoords(I, e.st)  k == DomKey(I, e.st)
+         front == DFront(store, e.depth, k)
+         exp == IsDominated(front, c, e.value, TRUE) IN
+     /\ devs' = Add(devs, Tag(e.dominated # exp, "C10 verdict") \cup Tag(e.dominated /\ exp /\ ~ThresholdSound(front, c, e.value, e.threshold, TRUE), "C10 threshold"))
+     /\ store' = (IF e.dominated THEN store ELSE DSet(store, e.depth, k, DInsert(front, c, e.value, TRUE)))
+  /\ UNCHANGED <<I, HT, cfg, S, cur, compiledCur, inp, res, baseRet, prevRet, primalMax, held, skipOK>>
+TDom == /\ (Ev("dclear_layer") \/ Ev("poll"))
+        /\ UNCHANGED <<I, HT, cfg, S, cur, compiledCur, inp, res, baseRet, prevRet, primalMax, held, skipOK, store, devs>>
 
 \* ------------------------------------------------------------------ compilations
 TCompile ==
@@ -112,7 +121,7 @@ TCompile ==
      /\ devs' = Add(devs, Tag(cur = None \/ i.root # cur, "DIV compiled-node-is-not-the-popped-one")
                           \cup Tag(e.best_lb # S.bestLb, "DIV incumbent-handed-to-compilation")
                           \cup Tag(cur # None /\ skipOK /\ e.type = "restricted", "DIV node-should-have-been-skipped"))
-  /\ UNCHANGED <<I, HT, cfg, S, cur, baseRet, prevRet, primalMax, held, skipOK>>
+  /\ UNCHANGED <<I, HT, cfg, S, cur, baseRet, prevRet, primalMax, held, skipOK, store>>
 TCompiled ==
   /\ Ev("compiled")
   /\ LET e == Rec[l]
@@ -122,13 +131,13 @@ TCompiled ==
      /\ devs' = Add(devs, (IF Isolated THEN CompileTags(I, HT, inp, r)
                            \* with shared stores only the primal side is unconditional: what is offered as incumbent must be feasible
                            ELSE IF e.ok THEN Tag(e.besol.some /\ ~FeasibleSolution(I, e.besol.decs, e.bev), "C02 incumbent-candidate-infeasible") ELSE {}))
-  /\ UNCHANGED <<I, HT, cfg, cur, compiledCur, inp, baseRet, prevRet, primalMax, held, skipOK>>
+  /\ UNCHANGED <<I, HT, cfg, cur, compiledCur, inp, baseRet, prevRet, primalMax, held, skipOK, store>>
 TCutset ==
   /\ Ev("cutset")
   /\ LET cs == {SP(Rec[l].nodes[i]) : i \in DOMAIN Rec[l].nodes} IN
      devs' = Add(devs, (IF Isolated /\ ~(I.long_arcs /\ cfg.dd = "pooled") /\ I.n <= 6 THEN CutsetTags(I, HT, inp, res, cs) ELSE {})
                        \cup Tag(\E c \in cs : ~ExactSubProblem(I, c), "C08 node-not-exact"))
-  /\ UNCHANGED <<I, HT, cfg, S, cur, compiledCur, inp, res, baseRet, prevRet, primalMax, held, skipOK>>
+  /\ UNCHANGED <<I, HT, cfg, S, cur, compiledCur, inp, res, baseRet, prevRet, primalMax, held, skipOK, store>>
 
 \* ------------------------------------------------------------------ outcome
 Sig(r) == IF cfg.dd = "pooled" /\ I.long_arcs /\ (r.root_in_cutset \/ r.watchdog) THEN "D5" ELSE "-"
@@ -178,9 +187,9 @@ TReturn ==
      /\ devs' = (IF Cardinality(devs) < 60 THEN devs \cup {<<t, l, cfg.run, Sig(r)>> : t \in RetTags(r) \cup endTags} ELSE devs)
      /\ baseRet' = (IF cfg.role = "base" THEN [val |-> val, is_exact |-> r.is_exact] ELSE baseRet)
      /\ prevRet' = (IF cfg.role = "cut" THEN [best_lb |-> r.best_lb, best_ub |-> r.best_ub] ELSE None)
-  /\ UNCHANGED <<I, HT, cfg, S, cur, compiledCur, inp, res, primalMax, held, skipOK>>
+  /\ UNCHANGED <<I, HT, cfg, S, cur, compiledCur, inp, res, primalMax, held, skipOK, store>>
 
-Next == TReset \/ TPrimal \/ TCInit \/ TPush \/ TPop \/ TPopNone \/ TFClear \/ TCGet \/ TCUpd \/ TCClearLayer \/ TCClear \/ TDom
+Next == TReset \/ TPrimal \/ TCInit \/ TPush \/ TPop \/ TPopNone \/ TFClear \/ TCGet \/ TCUpd \/ TCClearLayer \/ TCClear \/ TDom \/ TDQuery
         \/ TCompile \/ TCompiled \/ TCutset \/ TReturn
 Spec == Init /\ [][Next]_vars
 Report == l = Len(Rec) + 1 => PrintT(<<"RESULT", ToJson([total |-> Len(Rec), devs |-> devs])>>)
